@@ -32,7 +32,8 @@ Failure signatures name the class of the fault, found by re-running neighbouring
 the single plain write is `canonical-bytes:<type | variant=.. | bigint | delimited>`, one that needs the pieces is
 `pieces-differ:<mode>[:gz-only][:<type>]`, header faults are `header-not-once:<mode>[:gz-only]:<missing|repeated|..>`.
 Faults that need a derived / re-used table object (the same rows as freshly built tables are fine):
-`row-selection:[lazy:][empty:]<type>`, `rewrite-same-table:[lazy:][<mode>:]<type>`, `table-changed-by-write:[lazy:]<type>`.
+`row-selection:[lazy:][empty:]<type | any-type>`, `rewrite-same-table:[lazy:][<mode>:]<type | any-type>` (any-type: the
+simplest table, Interval, fails in the same history), `table-changed-by-write:[lazy:]<type>`.
 """
 import gzip
 import itertools
@@ -887,12 +888,22 @@ def _outcome_tail(outcome):
     return {"exc": ":exception:" + outcome[1], "header": ":header-" + outcome[1], "body": ""}[outcome[0]]
 
 
+def _simplest_type_probe(tmp, case, writes, mode):
+    """does the same history fail for the simplest delimited table (Interval) too?  then it is not a matter of this type"""
+    if case["type"] == "interval" and case.get("variant") is None:
+        return False
+    rows = (pool("interval", None, "quick") * 2)[:len(case["rows"])]
+    probe = evaluate_derived(tmp, dict(case, type="interval", variant=None, rows=rows, header="", writes=writes, mode=mode,
+                                       readback=False), tag="probe")["write"]
+    return probe[0] not in ("ok", "skip")
+
+
 def _classify_derived(tmp, case, outcome):
     """signature of a failed history of writes of one table object.
     1. a selection that fails as the single plain write of a fresh object: if the same rows fail as a freshly built
-       table too it is the existing class of that write, else 'row-selection:[lazy:][empty:]<type>';
+       table too it is the existing class of that write, else 'row-selection:[lazy:][empty:]<type | any-type>';
     2. every selection is fine on its own: if the same pieces as independently built tables fail in the same mode it is
-       the existing class of that write, else 'rewrite-same-table:[lazy:][<mode>:]<type>' (the object is written more
+       the existing class of that write, else 'rewrite-same-table:[lazy:][<mode>:]<type | any-type>' (the object is written more
        than once / used after it was written; <mode> only if the same writes to separate files are fine)."""
     rows, writes, mode, gz = case["rows"], case["writes"], case["mode"], case["gz"]
     n = len(rows)
@@ -913,7 +924,9 @@ def _classify_derived(tmp, case, outcome):
             lcase = {"kind": "lazy", "type": case["type"], "rows": rows, "header": case.get("header") or "", "modify": None,
                      "split": [n], "mode": "multi", "gz": False}
             return _lazy_signature(tmp, lcase, rows, ":exception:" + single[1] if single[0] == "exc" else "")
-        return "row-selection:%s%s%s%s" % (lazy, "empty:" if cls == "empty" else "", case["type"], _outcome_tail(single))
+        simplest = _simplest_type_probe(tmp, case, [s], "one")
+        return "row-selection:%s%s%s%s" % (lazy, "empty:" if cls == "empty" else "", "any-type" if simplest else case["type"],
+                                           _outcome_tail(single))
     if mode == "files":
         for er in selected:
             fresh_case = _fresh_write_case(case, er, [len(er)], "one", gz)
@@ -935,7 +948,8 @@ def _classify_derived(tmp, case, outcome):
     if mode != "files":          # the same writes, each to a file of its own: fine -> the fault needs this mode
         if evaluate_derived(tmp, dict(case, mode="files", readback=False), tag="probe")["write"][0] == "ok":
             mpart = mode + ":"
-    return "rewrite-same-table:%s%s%s%s%s" % (lazy, mpart, case["type"], zpart, _outcome_tail(outcome))
+    simplest = _simplest_type_probe(tmp, case, writes, mode)
+    return "rewrite-same-table:%s%s%s%s%s" % (lazy, mpart, "any-type" if simplest else case["type"], zpart, _outcome_tail(outcome))
 
 
 def exec_derived(col, tmp, case):
